@@ -108,9 +108,11 @@ theorem fileNameToSplit_congr {e e' : Bytes} (h : e.take 11 = e'.take 11) : file
 
 /-! ## the invariant -/
 
-/-- a2kit's key of the entry and the reader's name of it agree -/
+/-- a2kit's key of the entry and the reader's name of it agree, neither part contains a dot, and a directory has a
+non-empty name (the reader lists the files of a directory without a name as if they were in its parent) -/
 def NameGood (e : Bytes) : Prop :=
-  ∃ nm ty, fileNameToSplit e = some (nm, ty) ∧ entName e = (if ty = [] then nm else nm ++ [46] ++ ty) ∧ 46 ∉ nm ∧ 46 ∉ ty
+  ∃ nm ty, fileNameToSplit e = some (nm, ty) ∧ entName e = (if ty = [] then nm else nm ++ [46] ++ ty) ∧ 46 ∉ nm ∧ 46 ∉ ty ∧
+    ((e.getD 11 0 / 16) % 2 = 1 → entName e ≠ [])
 
 /-- after the first end-of-directory mark (first name byte 0) every entry is an end mark: what `format`, `create` and
 `expand_directory` establish by zeroing, and no operation destroys (`delete` marks with 0xE5, never with 0) -/
@@ -174,7 +176,7 @@ def absPath (p : Bytes) : Bytes := if (keyOf p).getLast? = some 46 then (keyOf p
 
 theorem entName_of_key {e nm ty : Bytes} {p : Bytes} (hn : fileNameToSplit e = some (nm, ty)) (hg : NameGood e)
     (hk : keyOf p = nm ++ [46] ++ ty) : entName e = absPath p := by
-  obtain ⟨nm', ty', h1, h2, _, h3⟩ := hg
+  obtain ⟨nm', ty', h1, h2, _, h3, _⟩ := hg
   rw [hn] at h1
   injection h1 with h1
   injection h1 with ha hb
